@@ -29,6 +29,7 @@ type E1Job struct {
 	Oracles []string   `json:"oracles"`
 	AllJ    bool       `json:"allj,omitempty"` // C07: all prefixes j instead of {0, n-1, n}
 	Foreign *ForeignSpec `json:"foreign,omitempty"` // C17: the drive starts as a foreign tar archive
+	TornBytes int      `json:"torn_bytes,omitempty"` // C15: the tape loses this many bytes at its end before the read-only instance opens it
 	AbsentIndex bool   `json:"absent_index,omitempty"` // C15: the read-only instance starts without an index
 	HInit   string     `json:"hinit,omitempty"`  // handle level: initial content spec of /f, or "<missing>"
 	HFlags  int        `json:"hflags,omitempty"` // handle level: OpenFile flags
@@ -418,6 +419,14 @@ func RunE1(env *Env, job *E1Job) *E1Res {
 				st.Close()
 				st = ns
 				return Guard(func() error { return st.Init() })
+			}
+			if o.K == "reindex" {
+				// what `stfs recovery index --overwrite` does: wipe and replay into the SAME (already opened) index store
+				return Guard(func() error {
+					err := IndexInto(st, true)
+					st.ComposeFromIndex()
+					return err
+				})
 			}
 			return Guard(func() error { return ops.ExecImpl(st, o) })
 		}
@@ -981,7 +990,13 @@ func (c *stepCtx) oracleC13() {
 						k = "d"
 					}
 					if (r.Kind == "d" || r.Kind == "f") && (k != r.Kind || (r.Kind == "f" && i.Size() != r.Size)) {
-						c.viol("C13", "C13|listing-vs-stat|"+c.shape, fmt.Sprintf("history: %s\nlisting of %s says %s kind=%s size=%d, Stat says kind=%s size=%d", c.hist(), e.Path, i.Name(), k, i.Size(), r.Kind, r.Size))
+						cls := "C13|listing-vs-stat|" + c.shape
+						for _, o := range append(append([]ops.Op{}, c.job.Setup...), c.job.Hist...) {
+							if o.K == "symlink" && model.Clean(o.Q) == cp {
+								cls = "C13|listing-vs-stat|symlink-entry" // the listing describes a link with other attributes than Stat (D14)
+							}
+						}
+						c.viol("C13", cls, fmt.Sprintf("history: %s\nlisting of %s says %s kind=%s size=%d, Stat says kind=%s size=%d", c.hist(), e.Path, i.Name(), k, i.Size(), r.Kind, r.Size))
 					}
 				}
 			}
